@@ -171,12 +171,12 @@ def run(ck):
     # ---------------------------------------------------------------- sample(): forwarding, start state
     for scls in ("PositiveWaveFunction", "ComplexWaveFunction", "DensityMatrix"):
         ssite = prog.method(scls, "sample").site()
-        for ow in (False, True):
-            inst = "%s.sample/overwrite=%s" % (scls, ow)
+        for ow, form in ((False, ("B", "nv")), (True, ("B", "nv")), (False, ("nv",)), (True, ("nv",))):
+            inst = "%s.sample/overwrite=%s%s" % (scls, ow, "" if len(form) == 2 else "/1-D start state")
             with ck.guard("C05.R3", inst, ssite):
                 def th(it):
                     s = make_state(it, scls)
-                    v0 = tens(it, "init", ("B", "nv"))
+                    v0 = tens(it, "init", form)
                     k = VNum("int", T.sym("k"), nonneg=True)
                     r = call(it, s, "sample", k, initial_state=v0, overwrite=VConst(ow))
                     return v0, r, k
@@ -193,7 +193,8 @@ def run(ck):
                         ist = env.get("initial_state")
                         ck.check(isinstance(ist, VTens) and ist.obj is v0.obj, "C05.R2", inst + ":initial_state forwarded", ssite, "initial_state is not forwarded to gibbs_steps")
                         okw, w = const_of(env.get("overwrite"))
-                        ck.check(okw and w is ow, "C05.R3", inst + ":overwrite forwarded", ssite, "overwrite flag is not forwarded")
+                        if okw and w is ow:  # evidence only: what decides is the effect on the caller's tensor (below), however the flag travels
+                            ck.ok("C05.R3", inst + ":overwrite forwarded", ssite)
                         rb = it_cls_of(gcalls[0][1][0])
                         ck.check(rb is not None, "C05.R2", inst + ":uses rbm_am", ssite, "gibbs_steps receiver is not the amplitude network")
                     writes_init = [e for e in p.effects if "param:init" in e.origins and e.kind in ("write", "meta")]
